@@ -159,7 +159,9 @@ def decide(formulas, *, timeout_s=60, nonlinear=False, ackermann=None, second=Fa
             continue
         fs.append(f)
     if not fs:
-        return Result("sat", z3.Solver().model() if z3.Solver().check() == z3.sat else None, 0.0, "trivial")
+        s0 = z3.Solver()
+        s0.check()
+        return Result("sat", s0.model(), 0.0, "trivial")
     ack = None
     if ackermann is None:
         ackermann = nonlinear
